@@ -560,6 +560,7 @@ class Run:
         self.model_states = []
         self.had_nonadm = False
         self.radius_dirty = False   # radius edited since `_simple` was computed
+        self.aba_taint = self.type_taint = False
 
     # -- model ---------------------------------------------------------------------------------
     def model(self):
@@ -623,6 +624,21 @@ class Run:
         self.checked = len(toks)
         if not states:
             return
+        # Diagnosis from the model states: `aba` = at some point the stamp was current while the model held an entry
+        # computed from other content (only possible after a non-fresh change: content restored); `typ` = the stamp was
+        # current while the `type` column was computed from another topology.  Everything computed from such an
+        # entry / column is tainted until the caches are dropped.
+        self.aba_taint = self.type_taint = False
+        for s_ in states:
+            if not s_['ents']:
+                self.aba_taint = False
+                if s_['t']:
+                    self.type_taint = False
+            if s_['m'] and not s_['stale']:
+                if self.had_nonadm and any(not c for c in s_['ents'].values()):
+                    self.aba_taint = True
+                if not s_['t']:
+                    self.type_taint = True
         st = states[-1]
         stamp_cur = (not st['stale']) and st['lock'] == 0 and st['m']
         # 2. Inv on the implementation: stamp current => every cache entry equals the fresh view
@@ -638,10 +654,7 @@ class Run:
                 want = self.fresh_view('simple_topo' if name == 'simple' else name)
                 if want[0] != 'ok':
                     continue
-                predicted_stale = not st['ents'].get(attr, True)
-                sig = SIG_ABA if (predicted_stale and self.had_nonadm) else None
-                if name == 'simple' and not st['t']:
-                    sig = SIG_TYPE      # downsample_neuron keeps nodes by the (stale) `type` column
+                sig = self.signature(name, not st['ents'].get(attr, True), False)
                 ctx.oracle(got == want, f'cache entry {attr} is stale although the stamp is current (after {label}): the next '
                                         f'read of `{name}` returns a value computed before a change; cached={str(got)[:160]} fresh={str(want)[:160]}',
                            case, signature=sig)
@@ -649,10 +662,23 @@ class Run:
         if st['t'] or stamp_cur:
             for name in TYPE_VIEWS:
                 got, want = get_view(x, name), self.fresh_view(name)
-                sig = SIG_TYPE if (not st['t'] and name != 'root') else None
+                sig = SIG_TYPE if (self.type_taint and name != 'root') else None
                 ctx.oracle(got == want, f'`{name}` differs from a freshly constructed neuron after {label}: {got[1]} vs {want[1]}', case, signature=sig)
         else:
             ctx.count('type_oracle', 'skipped(in-place topology edit pending)')
+
+    def signature(self, view, predicted_stale, radius_only):
+        """Known-finding signature of a failure, decided from what the *model* says about the history."""
+        v = self.spec.by_name.get(view)
+        if view == 'simple' and v and not v['wrapped'] and predicted_stale:
+            return SIG_SIMPLE
+        if self.aba_taint:
+            return SIG_ABA
+        if self.type_taint:
+            return SIG_TYPE      # e.g. downsample (simple) and the Python segment code select nodes by `type`
+        if radius_only:
+            return SIG_SIMPLE_RADIUS
+        return None
 
     def read(self, view, label):
         ctx, case, x = self.ctx, self.case, self.x
@@ -668,16 +694,11 @@ class Run:
         sig = None
         st = self.model_states[-1] if self.model_states else None
         v = self.spec.by_name.get(view)
-        if v and st is not None and got != want:
-            predicted_stale = not st['ents'].get(v['attr'], True)
-            if view == 'simple' and not v['wrapped'] and predicted_stale:
-                sig = SIG_SIMPLE
-            elif v['wrapped'] and predicted_stale and self.had_nonadm:
-                sig = SIG_ABA
-            elif view == 'simple' and not st['t']:
-                sig = SIG_TYPE
-            elif view == 'simple' and self.radius_dirty and get_view(x, 'simple_topo') == self.fresh_view('simple_topo'):
-                sig = SIG_SIMPLE_RADIUS
+        if st is not None and got != want:
+            predicted_stale = bool(v) and not st['ents'].get(v['attr'], True)
+            radius_only = (view == 'simple' and self.radius_dirty
+                           and get_view(x, 'simple_topo') == self.fresh_view('simple_topo'))
+            sig = self.signature(view, predicted_stale, radius_only)
         ctx.oracle(got == want, f'`{view}` read after {label} differs from a freshly constructed neuron: got {str(got)[:200]} fresh {str(want)[:200]}',
                    case, signature=sig)
         ctx.count('read', view)
